@@ -138,7 +138,9 @@ impl tower::Service<Request<Bytes>> for NodeService {
             {
                 let mut kv: Vec<String> = h.iter().map(|(k, v)| format!("{k}={v}\n")).collect();
                 kv.sort();
-                resp.headers_mut().insert("hdr-digest".into(), digest(kv.concat().as_bytes()));
+                // fixed width (16 hex digits), so that response header sizes stay computable (C15)
+                let d = digest(kv.concat().as_bytes());
+                resp.headers_mut().insert("hdr-digest".into(), d.split(':').nth(1).unwrap_or("").to_string());
             }
             resp.headers_mut().insert("srv".into(), idx.to_string());
             resp.headers_mut().insert("id".into(), id);
@@ -175,6 +177,36 @@ where
     }
 }
 
+/// A user outbound layer that waits before it forwards the request.
+struct HoldBack<S>(Arc<tokio::sync::Mutex<S>>, u64);
+impl<S> tower::Service<Request<Bytes>> for HoldBack<S>
+where
+    S: tower::Service<Request<Bytes>> + Send + 'static,
+    S::Future: Send + 'static,
+    S::Response: Send + 'static,
+    S::Error: Send + 'static,
+{
+    type Response = S::Response;
+    type Error = S::Error;
+    type Future = futures::future::BoxFuture<'static, Result<S::Response, S::Error>>;
+    fn poll_ready(&mut self, _cx: &mut std::task::Context<'_>) -> std::task::Poll<Result<(), S::Error>> {
+        std::task::Poll::Ready(Ok(()))
+    }
+    fn call(&mut self, req: Request<Bytes>) -> Self::Future {
+        let inner = self.0.clone();
+        let ms = self.1;
+        Box::pin(async move {
+            tokio::time::sleep(Duration::from_millis(ms)).await;
+            let fut = {
+                let mut g = inner.lock().await;
+                futures::future::poll_fn(|cx| g.poll_ready(cx)).await?;
+                g.call(req)
+            };
+            fut.await
+        })
+    }
+}
+
 pub struct Node {
     pub idx: usize,
     pub net: Option<Network>,
@@ -194,6 +226,7 @@ pub struct World {
     pub ids: Arc<Mutex<HashMap<PeerId, usize>>>,
     pub bg: HashMap<String, tokio::task::JoinHandle<String>>,
     pub start: tokio::time::Instant,
+    pub held_peers: Vec<anemo::Peer>,
 }
 
 fn kv<'a>(toks: &'a [&'a str]) -> HashMap<&'a str, &'a str> {
@@ -262,6 +295,9 @@ impl World {
         // outlayer=1: the user supplies an outbound request layer of their own (one that changes nothing)
         if a.get("outlayer") == Some(&"1") {
             b = b.outbound_request_layer(tower::layer::util::Identity::new());
+        } else if let Some(ms) = a.get("outlayer").and_then(|v| v.strip_prefix("delay")).and_then(|v| v.parse::<u64>().ok()) {
+            // outlayer=delay<ms>: the user's outbound layer holds every request for that long before passing it on
+            b = b.outbound_request_layer(tower::layer::layer_fn(move |inner| HoldBack(Arc::new(tokio::sync::Mutex::new(inner)), ms)));
         }
         // routes=<hex>,<hex>..: the node serves a Router with these routes (every one handled by the node service)
         // gate=<k>: the whole service sits behind tower's ConcurrencyLimit (back-pressure through poll_ready: at most k
@@ -385,8 +421,10 @@ async fn net_cmd(
             let a = kv(&t[3..]);
             let port = a.get("port").and_then(|p| p.parse().ok()).unwrap_or_else(|| ports[&j]);
             // ip=<x>: the node is dialed under its other address 127.0.0.<x> (every fabric node answers under all of them)
-            let target = match a.get("ip").and_then(|x| x.parse::<u8>().ok()) {
-                Some(x) => std::net::SocketAddr::new(std::net::IpAddr::V4(std::net::Ipv4Addr::new(127, 0, 0, x)), port),
+            let target = match a.get("ip") {
+                // ip=m: the IPv4-mapped IPv6 spelling of the node's address, [::ffff:127.0.0.1]:port
+                Some(&"m") => std::net::SocketAddr::new(std::net::IpAddr::V6(std::net::Ipv4Addr::LOCALHOST.to_ipv6_mapped()), port),
+                Some(x) => std::net::SocketAddr::new(std::net::IpAddr::V4(std::net::Ipv4Addr::new(127, 0, 0, x.parse().unwrap())), port),
                 None => fabric::addr(port),
             };
             let r = match a.get("pin") {
@@ -410,6 +448,9 @@ async fn net_cmd(
             let mut req = Request::new(Bytes::from(body_pattern(size, id.len() as u8 + j as u8)))
                 .with_route(a.get("route").map(|r| String::from_utf8(unhex(r)).unwrap()).unwrap_or("/echo".into()))
                 .with_header("id", id);
+            if a.get("noid") == Some(&"1") {
+                req.headers_mut().remove("id");
+            }
             for k in ["sleep-ms", "resp-size", "resp-hdr-size", "status", "panic", "ticks"] {
                 if let Some(v) = a.get(k) {
                     req.headers_mut().insert(k.to_string(), v.to_string());
@@ -549,6 +590,7 @@ async fn run_scenario(line: &[&str]) -> String {
         ids: Arc::new(Mutex::new(HashMap::new())),
         bg: HashMap::new(),
         start: tokio::time::Instant::now(),
+        held_peers: Vec::new(),
     };
     let mut out: Vec<String> = Vec::new();
     for cmd in cmds {
@@ -735,6 +777,15 @@ async fn run_scenario(line: &[&str]) -> String {
                 format!("{}", w.adv[&i].conn_open(j) as u8)
             }
             // encreq <route hex> <size> [hdr-size]: bytes of a well-formed request (for hostile mutations)
+            // holdpeer <i> <j>: the application keeps a Peer handle of node j obtained from node i (until the scenario ends)
+            "holdpeer" => {
+                let (i, j): (usize, usize) = (t[1].parse().unwrap(), t[2].parse().unwrap());
+                let pid = w.nodes[&j].peer_id;
+                match w.net(i).and_then(|n| n.peer(pid)) {
+                    Some(p) => { w.held_peers.push(p); "ok".into() }
+                    None => "err".into(),
+                }
+            }
             "now" => format!("{}", w.start.elapsed().as_micros()),
             "trace" => {
                 // trace lines since the last call, peer ids rewritten to node indices, ports kept
